@@ -32,6 +32,11 @@ import r40_ranges
 import r41_unitonce
 import r42_profilestate
 import r43_selfnorm
+import r44_argswap
+import r45_positive
+import r46_trivial
+import r47_reshape
+import r48_boundary
 import r06_validate
 import r07_cache
 import r08_toporder
@@ -143,7 +148,7 @@ def r28(ctx, prop):
 
 
 def r29(ctx, prop):
-    return r29_energyscale.run(ctx.F(), ("ideal_gas_helmholtz_energy",) if prop == "C10" else None)
+    return r29_energyscale.run(ctx.F(), None)
 
 
 R31_SCOPES = {
@@ -176,6 +181,30 @@ def r40(ctx, prop):
     sc = dict(R25_SCOPES)
     sc.update({"C09": ("feos::",), "C14": ("parameter",), "C02": ("feos::", "feos_core::state", "feos_core::cubic")})
     return r40_ranges.run(ctx.F(), sc[prop])
+
+
+R44_SCOPES = {"C08": ("feos::",), "C05": ("feos_core::phase_equilibria",), "C03": ("feos_core::state", "feos_core::density_iteration"),
+              "C10": ("feos_core::state", "ideal_gas"), "C18": ("feos_dft::",), "C17": ("feos_dft::", "::dft::"), "C01": ("feos::", "feos_core::state")}
+
+
+def r44(ctx, prop):
+    return r44_argswap.run(ctx.F(), R44_SCOPES[prop])
+
+
+def r45(ctx, prop):
+    return r45_positive.run(ctx.F())
+
+
+def r46(ctx, prop):
+    return r46_trivial.run(ctx.F())
+
+
+def r47(ctx, prop):
+    return r47_reshape.run(ctx.F())
+
+
+def r48(ctx, prop):
+    return r48_boundary.run(ctx.F())
 
 
 def r43(ctx, prop):
@@ -309,6 +338,10 @@ def r1_all(ctx, prop):
     return _r1(ctx, prop, ("R1a", "R1c"))
 
 
+def r1_sinks(ctx, prop):
+    return _r1(ctx, prop, ("R1a",))
+
+
 def r1_guard(ctx, prop):
     return _r1(ctx, prop, ("R1b", "R1d"))
 
@@ -410,23 +443,23 @@ def r12(ctx, prop):
 
 
 PROPERTY_RULES = {
-    "C08": [r10_wrapper, r11, r2, r20, r21, r25, r27, r37, r38, r40],
+    "C08": [r10_wrapper, r11, r2, r20, r21, r25, r27, r37, r38, r40, r44],
     "C09": [r12, r18, r20, r10_wrapper, r30, r38, r40],
-    "C02": [r3, r7, r39, r40],
-    "C10": [r10_selector, r8, r1_idealgas, r3, r19, r25, r29, r10_selconst, r1_guard_idealgas],
-    "C14": [r14, r13, r10_identifier, r21, r27, r28, r38, r40],
+    "C02": [r3, r7, r39, r40, r1_sinks],
+    "C10": [r10_selector, r8, r1_idealgas, r3, r19, r25, r29, r10_selconst, r1_guard_idealgas, r44],
+    "C14": [r14, r13, r10_identifier, r21, r27, r28, r38, r40, r47],
     "C15": [r15],
-    "C20": [r10_transport, r21, r25, r24, r34, r10_selconst, r41],
-    "C01": [r1_all, r2, r7, r8, r4, r25, r24, r26, r28, r29, r39, r40],
+    "C20": [r10_transport, r21, r25, r24, r34, r10_selconst, r41, r47],
+    "C01": [r1_all, r2, r7, r8, r4, r25, r24, r26, r28, r29, r39, r40, r44],
     "C13": [r1_guard, r8, r21, r32, r36, r43],
-    "C17": [r1_functional, r8, r22, r25, r21, r26, r28, r33, r40],
+    "C17": [r1_functional, r8, r22, r25, r21, r26, r28, r33, r40, r44, r47, r48],
     "C11": [r9, r7],
-    "C03": [r6, r17, r4, r5, r25, r24, r26, r31, r40, r43],
-    "C04": [r4, r16, r25, r24, r26, r31, r10_selconst, r40],
-    "C05": [r4, r5, r16, r25, r24, r26, r31, r10_selconst, r39, r40, r43],
+    "C03": [r6, r17, r4, r5, r25, r24, r26, r31, r40, r43, r44],
+    "C04": [r4, r16, r25, r24, r26, r31, r10_selconst, r40, r46],
+    "C05": [r4, r5, r16, r25, r24, r26, r31, r10_selconst, r39, r40, r43, r44, r46],
     "C06": [r4, r1_all, r21, r25, r24, r26, r28, r31, r39, r40],
-    "C07": [r5, r4, r25, r24, r26, r31, r10_selconst, r40, r43],
-    "C18": [r4, r16, r25, r24, r26, r35, r39, r40, r42],
+    "C07": [r5, r4, r25, r24, r26, r31, r10_selconst, r40, r43, r46],
+    "C18": [r4, r16, r25, r24, r26, r35, r39, r40, r42, r44, r45],
 }
 
 
